@@ -52,7 +52,10 @@ pub fn enc_spec(s: &HdrSpec) -> Vec<u8> {
 }
 
 pub fn rand_bytes_str(r: &mut Rng) -> Vec<u8> {
-    match r.below(8) {
+    match r.below(10) {
+        // text with white space and line ends at its edges and CR LF pairs inside: all of it is data
+        8 => [&b"ends in a line feed\n"[..], b"two of them\n\n", b"  leading and trailing blanks \t", b"dos\r\nline ends\r\n", b"\n", b" "][r.usize(6)].to_vec(),
+        9 => b"#! \nscript whose first line is a bare shebang".to_vec(),
         0 => Vec::new(),
         1 => vec![0xff, 0xfe, b'a'],                   // invalid UTF-8
         2 => vec![0xc3, 0x28],                         // invalid 2-byte sequence
